@@ -584,6 +584,88 @@ def run(rep, tier="quick", replay=None, evidence_dir=None, collect_only=False):
     bld = [b for k, b in prog.bodies.items() if k.startswith("schema::union::UnionSchemaBuilder::variant") and b.kind != "Closure"]
     rep.ob("C11.R6", "UnionSchemaBuilder::variant* key their duplicate test on schema_to_base_schemakind", bool(bld) and all(calls_named(b, "schema::union::schema_to_base_schemakind") for b in bld), "", bld[0].loc() if bld else "")
 
+    # ------------------------------------------------------------ R8 every named shape is registered / looked up by the name resolver
+    rep.rule("C11.R8", "the name resolver registers a definition for exactly the shapes that carry a name (Schema::name()) and checks it for an earlier definition; a reference is looked up")
+    rn = prog.bodies.get("schema::resolve::resolve_names")
+    nb_ = prog.bodies.get("schema::Schema::name")
+    if rn is None or nb_ is None:
+        rep.anchor_error("C11.R8", "schema::resolve::resolve_names / Schema::name")
+    else:
+        from wire import Wire as _Wire
+        from vpes import top_shapes as _top
+        w8 = _Wire(prog)
+        nvp = w8.vpes(nb_)
+        named8 = set()
+        for s_, reg in _top(nvp, 1):
+            if any(st["s"] == "assign" and st["rv"]["r"] == "agg" and st["rv"].get("adt") == "std::option::Option" and st["rv"].get("variant") == "Some" for x in reg for st in nb_.blocks[x]["stmts"]):
+                named8.add(nvp.shape_name(s_, 1))
+        rvp = w8.vpes(rn)
+        n8 = 0
+        for s_, reg in _top(rvp, 1):
+            S_ = rvp.shape_name(s_, 1)
+            hm = set(callee_names(rn.blocks[x]["term"]["func"])[0].split("::")[-1] for x in reg if rn.blocks[x]["term"]["t"] == "call" and callee_names(rn.blocks[x]["term"]["func"])[0].startswith("std::collections::HashMap"))
+            n8 += 1
+            if S_ == "Ref":
+                rep.ob("C11.R8", "resolve_names looks a reference up", bool(hm & {"contains_key", "get"}), "", rn.loc())
+            elif S_ in named8:
+                rep.ob("C11.R8", "resolve_names registers a %s definition (after testing for an earlier one)" % S_, {"insert", "contains_key"} <= hm or ("insert" in hm and "get" in hm),
+                       "a named %s is not entered into the name table: a later reference to it is reported unresolved (ResolvedSchema, the datum writers and readers fail for a schema the parser accepted), and a second definition of the name goes unnoticed" % S_, rn.loc())
+            else:
+                rep.ob("C11.R8", "resolve_names registers nothing for the unnamed shape %s" % S_, "insert" not in hm, "", rn.loc())
+        rep.floor("C11.R8", "schema shapes", n8, 31)
+
+    # ------------------------------------------------------------ R7 the default validators are the grammar's regular expressions
+    rep.rule("C11.R7", "names, namespaces, enum symbols and field names are checked by the specification validator with the grammar's ASCII character classes, through the regular expression, not by hand-written character tests")
+    import re as _re
+    TRAITS = ("SchemaNameValidator", "SchemaNamespaceValidator", "EnumSymbolNameValidator", "RecordFieldNameValidator")
+    own = [k for k in prog.bodies if k.startswith("<validator::SpecificationValidator as validator::") and k.split("::")[-1] in ("validate", "regex")]
+    rep.ob("C11.R7", "SpecificationValidator uses the traits' own validate / regex (no override)", not own, "overrides: %s" % own, prog.bodies[own[0]].loc() if own else "")
+    FIRST = set("ABCDEFGHIJKLMNOPQRSTUVWXYZabcdefghijklmnopqrstuvwxyz_")
+    REST = FIRST | set("0123456789")
+
+    def expand(cls):
+        out = set()
+        i = 0
+        while i < len(cls):
+            if i + 2 < len(cls) and cls[i + 1] == "-":
+                out |= set(chr(c) for c in range(ord(cls[i]), ord(cls[i + 2]) + 1))
+                i += 3
+            else:
+                out.add(cls[i])
+                i += 1
+        return out
+    for tr in TRAITS:
+        vb_ = prog.bodies.get("validator::%s::validate" % tr)
+        rb_ = [b for k, b in prog.bodies.items() if k.startswith("validator::%s::regex" % tr)]
+        if vb_ is None or not rb_:
+            rep.anchor_error("C11.R7", "validator::%s::{validate, regex}" % tr)
+            continue
+        uses = set(callee_names(t["func"])[0].split("::")[-1] for _, t in vb_.calls())
+        rep.ob("C11.R7", "%s::validate decides with the regular expression" % tr, "regex" in uses and bool(uses & {"is_match", "captures"}), "calls %s" % sorted(uses), vb_.loc())
+        lits = [l for b in rb_ for l in b.literals() if isinstance(l, str) and "[" in l]
+        okc = bool(lits)
+        why = ""
+        for lit in lits:
+            classes = _re.findall(r"\[([^\]]+)\]", lit)
+            for c_ in classes:
+                ex = expand(c_)
+                if ex != FIRST and ex != REST:
+                    okc = False
+                    why = "character class [%s]" % c_
+            rest_ = _re.sub(r"\[[^\]]+\]", "", lit)
+            if _re.search(r"\\[wWdDsSpPbB]|\(\?[a-zA-Z]*i", rest_) or "." in rest_.replace("\\.", ""):
+                okc = False
+                why = "construct outside the grammar in %r" % lit
+        rep.ob("C11.R7", "%s: the regular expression uses only the grammar's classes [A-Za-z_] and [A-Za-z0-9_]" % tr, okc, why, rb_[0].loc())
+    uni = []
+    for k_, b_ in prog.bodies.items():
+        if b_.crate == "apache_avro" and b_.file.endswith(("avro/src/validator.rs", "avro/src/schema/name.rs")):
+            for bi, t in b_.calls():
+                n_ = callee_names(t["func"])[0]
+                if n_.startswith(("core::char::methods::<impl char>::is_", "std::char::methods::<impl char>::is_", "char::methods::<impl char>::is_")) and "ascii" not in n_.split("::")[-1]:
+                    uni.append((b_, bi, n_.split("::")[-1]))
+    rep.ob("C11.R7", "no Unicode character-class test in the name validators", not uni, "%s" % [(b.path, n) for b, _, n in uni][:3], uni[0][0].loc(uni[0][1]) if uni else "")
+
     if collect_only:
         return rep
     rep.floor("C11", "obligations", len(rep.obligations), 45)
